@@ -10,10 +10,14 @@ def run(ctx):
             "flights opened and re-sealed with the sender's early / handshake traffic key) and fed message by message; a reference grammar per mode decides where the sequence becomes illegal - what was negotiated (session_ticket "
             "echoed, pre_shared_key selected, early_data accepted, HelloRetryRequest) is read from the server's messages on the wire of the attacked connection, not from the configuration. The deviant peer is transcript-consistent: "
             "every Finished fed to the receiver is recomputed over the receiver's own transcript and sealed with the sender's keys, and (TLS <= 1.2) the sender's running handshake hash is re-based on the receiver's view, so "
-            "completion is decided by the receiver's state machine alone; completion after a grammar-illegal sequence is the violation. Quick tier: declined-offer modes are attacked in the role the unanswered offer concerns "
-            "(ticket: client, PSK: server), fragmented framing for all cases of the basic TLS 1.3 modes and a third of the others; thorough: every mode in both roles, every case in both framings, every type injected twice. "
+            "completion is decided by the receiver's state machine alone; where no key exchange took place that Finished is the value under the receiver's current (all-zero) master secret. For coalesced cases a forked probe of the "
+            "one-message-per-record run supplies, per message, the protection state and the matching Finished value. Client-certificate key-type modes (TLS 1.1/1.2/1.3; RSA, ECDSA, id-RSASSA-PSS, Ed25519 certificates on RSA and ECDSA suites): "
+            "where this build's client can sign with the key the handshake is honest, otherwise the deviant client presents the PUBLIC sample certificate in place of its own in every deviant flight (delete CertificateVerify, skipped blocks, ...). "
+            "Completion after a grammar-illegal sequence is the violation. Quick tier: declined-offer modes are attacked in the role the unanswered offer concerns "
+            "(ticket: client, PSK: server), fragmented framing for all cases of the basic TLS 1.3 modes and a third of the others, coalesced framing for every deletion / skipped block / swap / duplicate / premature CCS / injected Finished and a seventh of the other injections, "
+            "key-type modes with the server attacked by deletions, skipped blocks, swaps and duplicates; thorough: every mode in both roles, every case in all three framings, every type injected twice. "
             "distinct_nontrivial = distinct (mode, role, flight, deviation, position, type/length, framing) executed.")
     return vflib.std_run(ctx, st, "exploration", rule,
-        ["the reference grammar is a reading of RFC 5246/6347/8446/5077 restricted to the messages this build can emit", "DTLS: only the completion clause is judged (duplicates and out-of-order messages may be ignored)",
+        ["the reference grammar is a reading of RFC 5246/6347/8446/5077 restricted to the messages this build can emit", "DTLS: only the completion clause is judged (duplicates and out-of-order messages may be ignored); DTLS flights are not coalesced and DTLS Finished values are not crafted, public-certificate substitution is TLS only",
          "the deviant peer knows the session secrets (it is the authenticated peer or an unauthenticated one, never a man in the middle); DTLS and TLS 1.3 senders are not re-based (TLS 1.3 receivers complete without the sender's cooperation)",
          "a TLS 1.3 mode whose honest handshake fails is attacked all the same (its negotiated parameters come from the wire); without a violation the run is then inconclusive, not held"], min_nontrivial=500)
